@@ -12,9 +12,9 @@ static int fails;
 #define FAIL(...) do { if (fails++ < 20) { printf("FAIL "); printf(__VA_ARGS__); printf("\n"); } } while (0)
 
 /* allocator stub: records the request exactly as the library passed it, backs it with real memory */
-static u64 last_req, nreq;
-static void* m(size_t n) { last_req = n; nreq++; return malloc(n ? n : 1); }
-static void* r(void* p, size_t n) { last_req = n; nreq++; return realloc(p, n ? n : 1); }
+static u64 last_req, nreq, max_req;
+static void* m(size_t n) { last_req = n; if (n > max_req) max_req = n; nreq++; return malloc(n ? n : 1); }
+static void* r(void* p, size_t n) { last_req = n; if (n > max_req) max_req = n; nreq++; return realloc(p, n ? n : 1); }
 static void f(void* p) { free(p); }
 
 static u64 structured[4096];
@@ -110,7 +110,7 @@ static int do_growth(void) {
   return fails != 0;
 }
 static int do_sersize(void) {
-  u64 nser = 0;
+  u64 nser = 0, nbuild = 0;
   static unsigned char payload[70000];
   static const u64 LS8[] = {0, 1, 23, 24, 100, 200, 230, 250, 252, 253, 254, 255};
   u64 n = 0;
@@ -142,6 +142,15 @@ static int do_sersize(void) {
         free(out);
       }
       cbor_decref(&s);
+      /* the copying constructors: a string of l bytes is either built on at least l bytes of storage, or refused */
+      max_req = 0;
+      cbor_item_t* b1 = text ? cbor_build_stringn((const char*)payload, (size_t)l) : cbor_build_bytestring(payload, (size_t)l);
+      nbuild++;
+      if (b1) {
+        if (max_req < l) FAIL("%s(.., %llu) succeeded on a largest request of %llu bytes", text ? "cbor_build_stringn" : "cbor_build_bytestring", l, max_req);
+        if ((text ? cbor_string_length(b1) : cbor_bytestring_length(b1)) != l) FAIL("%s(.., %llu) built a string of another length", text ? "cbor_build_stringn" : "cbor_build_bytestring", l);
+        cbor_decref(&b1);
+      }
     }
   }
   /* containers of up to 3 strings: every combination of the boundary lengths, in arrays (both flavours), maps, tags, chunked strings */
@@ -171,6 +180,7 @@ static int do_sersize(void) {
         }
   printf("CNT sersize_cases %llu\n", n);
   printf("CNT serialize_calls %llu\n", nser);
+  printf("CNT build_calls %llu\n", nbuild);
   return fails != 0;
 }
 int main(int argc, char** argv) {
